@@ -311,10 +311,17 @@ func init() {
 			Variants: []string{"d"},
 			Entries: func(gg *GenGrammar) []EntrySpec {
 				return []EntrySpec{{Name: "C05", Params: "n int", Body: "hl.C05(G, vd.New, strconv.Quote, n, NSW)"},
-					{Name: "C05Unit", Params: "k int", Body: "hl.C05Unit(vd.ASTOf, vd.RuleName(), k)"}}
+					{Name: "C05Unit", Params: "k int", Body: "hl.C05Unit(vd.ASTOf, vd.RuleName(), k)"},
+					{Name: "C05Reuse", Params: "n1, n2 int", Body: "hl.C05Reuse(G, vd.New, strconv.Quote, n1, n2, NSW)"}}
 			},
 			Jobs: func(gg *GenGrammar) []*Job {
 				jobs := lenJobs("C05", nFor(c, gg, N))
+				// the tree of a reused parser: the curated shapes and every sixth other grammar
+				if strings.HasPrefix(gg.G.Tag, "shape/") || gg.Idx%6 == 0 {
+					for _, ns := range [][2]int{{3, 3}, {3, 2}, {2, 3}} {
+						jobs = append(jobs, &Job{Entry: "C05Reuse", Args: []int{ns[0], ns[1]}})
+					}
+				}
 				if gg.Idx == 0 {
 					// the AST builder is grammar independent: one package runs the unit harness
 					kmax := 4
